@@ -105,7 +105,9 @@ fn mutate_args(args: &str, rng: &mut Rng) -> String {
     }
     let extra = ["Clone", "Copy", "Debug", "Default", "Ord", "PartialOrd", "Eq", "PartialEq", "Hash", "Deref", "DerefMut", "Add",
         "SubAssign", "Neg", "Not", "dump", "bound()", "bound(..)", "bound(T)", "Clone(dump)", "Debug(bound(T : Copy, ..))", "Foo", "AddAssign",
-        "Index", "bound(T", "Clone()", "Default(bound())", "Hash(dump, bound(..))", "= 3", "Clone = 1"];
+        "Index", "bound(T", "Clone()", "Default(bound())", "Hash(dump, bound(..))", "= 3", "Clone = 1",
+        // names of every length and alphabet (they are looked up in tables, sliced for an `Assign` suffix, printed in messages)
+        "Différence", "ÉcartAssign", "Übergröße", "añoAssign", "Assign", "A", "XAssign", "加Assign", "Add加", "ǅ", "r#Add", "r#type"];
     match rng.below(5) {
         0 if !parts.is_empty() => {
             let i = rng.below(parts.len());
@@ -190,6 +192,15 @@ pub fn mutate(args: &str, item_src: &str, donors: &[(String, String)], rng: &mut
                         }
                     }
                 },
+                syn::Item::Impl(im) => {
+                    // the trait name of an impl item goes through the operator table as well
+                    if let Some((_, path, _)) = &mut im.trait_ {
+                        if let Some(seg) = path.segments.last_mut() {
+                            let pool = ["Différence", "ÉcartAssign", "Übergröße", "añoAssign", "Assign", "A", "XAssign", "加Assign", "Add加", "AddAssignAssign"];
+                            seg.ident = syn::Ident::new(pool[rng.below(pool.len())], proc_macro2::Span::call_site());
+                        }
+                    }
+                }
                 syn::Item::Enum(en) => match rng.below(3) {
                     0 => en.ident = new(rng),
                     1 => {
